@@ -50,6 +50,7 @@ type FuncContract struct {
 	Cover    bool
 	Pure     bool
 	NoAuto   bool
+	CallsArg int // 1+index of the function argument this function is trusted to call once (0 = none)
 	Preserve []string // keys the function is declared not to write (checked against frame)
 	File     string
 	Line     int
@@ -108,7 +109,7 @@ type UFun struct {
 
 var clauseRe = regexp.MustCompile(`^([A-Za-z0-9_.]+):\s*(.*)$`)
 
-var keywords = map[string]bool{"func": true, "props": true, "safety": true, "requires": true, "ensures": true, "loop": true, "site": true, "inline": true, "trusted": true, "pred": true, "callers": true, "writers": true, "dyncall": true, "chan": true, "cover": true, "pure": true, "ufun": true, "preserves": true, "noauto": true, "package": true, "layout": true}
+var keywords = map[string]bool{"func": true, "props": true, "safety": true, "requires": true, "ensures": true, "loop": true, "site": true, "inline": true, "trusted": true, "pred": true, "callers": true, "writers": true, "dyncall": true, "chan": true, "cover": true, "pure": true, "ufun": true, "preserves": true, "noauto": true, "package": true, "layout": true, "callsarg": true}
 
 func loadContracts(root string) (*Contracts, error) {
 	cs := &Contracts{Funcs: map[string]*FuncContract{}, Preds: map[string]*Pred{}, UFuns: map[string]*UFun{}}
@@ -207,6 +208,15 @@ func (cs *Contracts) parseFile(path, pkg string) error {
 			cur.Inline = true
 		case "noauto":
 			cur.NoAuto = true
+		case "callsarg":
+			// trusted: the function behaves as one call of its n-th (function-typed) argument,
+			// returning that call's results
+			n, err := strconv.Atoi(fs[1])
+			if err != nil {
+				return fmt.Errorf("%s:%d: callsarg index: %v", path, d.line, err)
+			}
+			cur.CallsArg = n + 1
+			cur.TrustWhy = strings.TrimSpace(strings.TrimPrefix(rest, fs[1]))
 		case "pure":
 			cur.Pure = true
 		case "cover":
